@@ -147,7 +147,7 @@ def classes_overlap(a, b):
     return a[1] == "A" or b[1] == "A" or a[1] == b[1]
 
 
-def map_shape_clean(S, g):
+def map_shape_clean(S, g, docvals=None):
     """the member-list shape both validators handle: literal-keyed members (occurrence none or ?) and table members
     `* <prelude name> => t` / `+ <prelude name> => t`; a wildcard member may only be followed by members whose keys it cannot match
     (so at most one wildcard per key class, and a text wildcard comes after the text-keyed members); no group choice"""
@@ -187,7 +187,11 @@ def map_shape_clean(S, g):
                     return False          # two members with the same literal key
                 lit_seen.add(kc)
             if any(classes_overlap(w, kc) for w in wild_seen):
-                return False
+                # a literal-keyed member after a wildcard that could take its key: the validators hand the pair to the wildcard.
+                # Measured (6 290 + 6 295 pairs, no disagreement): when no map of the document has that key the shape is inside.
+                if not (docvals is not None and kc[0] == "lit" and
+                        not any(d[0] == "map" and any(a[0] == kc[1] and a[1] == kc[2] for a, _ in d[1]) for d in docvals)):
+                    return False
             if is_lit_key(key):
                 if lo > 1 or (hi is not None and hi > 1):
                     return False
@@ -300,7 +304,7 @@ def zones(S, v, mode):
                     if any(p is not None and is_lit_key(p[2]) and p[3] for p in ps) and any(p is not None and not is_lit_key(p[2]) for p in ps):
                         z.add("kf-c02-duplicate-key-bypasses-cut")
     for g in all_map_groups(S):
-        if not map_shape_clean(S, g):
+        if not map_shape_clean(S, g, docvals):
             z.add("kf-%s-map-member-shape" % P)
         elif mode == "json" and arrow_nocut_zone(S, g, docvals):
             z.add("kf-c01-arrow-key-acts-as-cut")
